@@ -24,6 +24,7 @@ from . import engine as E
 R = z3.Function('R', z3.RealSort(), z3.RealSort())
 PW = z3.Function('PW', z3.RealSort(), z3.RealSort(), z3.RealSort())
 PWF = z3.Function('PWF', z3.Float64(), z3.Float64(), z3.Float64())
+SQ = z3.Function('SQ', z3.RealSort(), z3.RealSort())
 EPS = z3.RealVal('1/9007199254740992')   # 2**-53
 TWO53 = z3.RealVal(2 ** 53)
 
@@ -54,10 +55,30 @@ def rnd(exact):
             return app
     a, ra = exact, app
     ax = eng.add_axiom
-    ax(z3.Implies(a >= 0, z3.And(ra >= 0, ra - a <= EPS * a, a - ra <= EPS * a)))
-    ax(z3.Implies(a <= 0, z3.And(ra <= 0, ra - a <= -EPS * a, a - ra <= -EPS * a)))
-    ax(z3.Implies(z3.And(z3.IsInt(a), a <= TWO53, a >= -TWO53), ra == a))
-    for (b, rb) in eng.r_apps:
+    kinds = getattr(eng, 'r_axioms', ('mono', 'sign', 'err', 'int'))
+    if 'err' in kinds:
+        ax(z3.Implies(a >= 0, z3.And(ra >= 0, ra - a <= EPS * a, a - ra <= EPS * a)))
+        ax(z3.Implies(a <= 0, z3.And(ra <= 0, ra - a <= -EPS * a, a - ra <= -EPS * a)))
+    elif 'sign' in kinds:
+        ax(z3.Implies(a >= 0, ra >= 0))
+        ax(z3.Implies(a <= 0, ra <= 0))
+    if 'int' in kinds:
+        ax(z3.Implies(z3.And(z3.IsInt(a), a <= TWO53, a >= -TWO53), ra == a))
+    # monotonicity instances: all pairs by default; in 'paired' mode (two runs of the same code on two inputs,
+    # eng.r_copy = 1 / 2 set by the harness) only the corresponding application of the other copy
+    copy = getattr(eng, 'r_copy', 0)
+    if 'paired' in kinds and copy:
+        idx = eng.r_copy_index.get(copy, 0)
+        eng.r_copy_index[copy] = idx + 1
+        eng.r_copy_apps.setdefault(copy, []).append((exact, app))
+        other = eng.r_copy_apps.get(3 - copy, [])
+        partners = [other[idx]] if idx < len(other) else []
+        # constants shared by both copies are the same term already; a different path shape falls back to all pairs
+        if eng.r_copy_apps.get(3 - copy) and idx >= len(other):
+            partners = list(eng.r_apps)
+    else:
+        partners = list(eng.r_apps)
+    for (b, rb) in partners:
         ax(z3.Implies(a <= b, ra <= rb))
         ax(z3.Implies(b <= a, rb <= ra))
     for c in getattr(eng, 'double_consts', ()):
@@ -87,3 +108,26 @@ def pw(x, o):
             eng.add_axiom(z3.Implies(b2 <= x.term, p2 <= app))
     eng.pw_apps.append((x.term, float(o), app))
     return SymFloat(app)
+
+
+def sq(x):
+    """exact square of a real term as an uninterpreted function with its order facts (keeps the queries linear):
+    SQ >= 0, SQ(0) = 0; increasing on x >= 0, decreasing on x <= 0"""
+    eng = E.cur()
+    app = SQ(x)
+    apps = getattr(eng, 'sq_apps', None)
+    if apps is None or getattr(eng, '_sq_path', None) is not eng.path:
+        apps = eng.sq_apps = []
+        eng._sq_path = eng.path
+    for (y, _) in apps:
+        if y.eq(x):
+            return app
+    eng.add_axiom(app >= 0)
+    eng.add_axiom(z3.Implies(x == 0, app == 0))
+    for (y, sy) in apps:
+        eng.add_axiom(z3.Implies(z3.And(x >= 0, y >= x), sy >= app))
+        eng.add_axiom(z3.Implies(z3.And(y >= 0, x >= y), app >= sy))
+        eng.add_axiom(z3.Implies(z3.And(x <= 0, y <= x), sy >= app))
+        eng.add_axiom(z3.Implies(z3.And(y <= 0, x <= y), app >= sy))
+    apps.append((x, app))
+    return app
